@@ -5,7 +5,7 @@ import random
 import sys
 
 from . import specexec as S
-from .memsock import MemSock
+from .memsock import MemSock, HarnessHang
 
 KEY = b"\x11\x22\x33\x44"
 
@@ -47,6 +47,9 @@ def run_real(stream, chunks, api="recv", fire=False, skip=False, max_calls=64):
             continue
         except websocket.WebSocketConnectionClosedException:
             obs.append(("exc", "WebSocketConnectionClosedException"))
+            break
+        except HarnessHang:
+            obs.append(("hang", "keeps reading after the end of the stream"))
             break
         except Exception as ex:  # noqa
             o = ("exc", type(ex).__name__)
